@@ -59,5 +59,10 @@ int main() {
   O(RequestParser_request, RequestParser, request); O(RequestParser_time, RequestParser, time_); S(RequestParser, RequestParser);
   O(DynamicStreamBuf_data, DynamicStreamBuf, data_); O(DynamicStreamBuf_maxSize, DynamicStreamBuf, maxSize_); S(DynamicStreamBuf, DynamicStreamBuf);
   O(RawBuffer_data, RawBuffer, data_); O(RawBuffer_length, RawBuffer, length_); S(RawBuffer, RawBuffer);
+  printf("#define VP_METHOD_NAMES ");
+#define METHOD(repr, str) printf("\"%s\",", str);
+  HTTP_METHODS
+#undef METHOD
+  printf("\n");
   return 0;
 }
